@@ -274,13 +274,19 @@ def request_arms(src, fn_name, keys):
         if not t: return []
         r = re.fullmatch(r"(\w+)\.(pause|resume)\(\)", t)
         if r: return [f"{r.group(1)}.{r.group(2)}"]
-        r = re.fullmatch(r"job_control_child\(child, JobControlEvent::(\w+)\)", t)
+        r = re.fullmatch(r"(?:\w+::)*job_control_child\(child, (?:\w+::)*JobControlEvent::(\w+)\)", t)
         if r: return [f"job_control:{r.group(1)}"]
         if re.fullmatch(r"(?:let )?_ = (?:sender|tx)\.send\(\(\)\)", t): return ["ack"]
         if re.fullmatch(r"unsafe \{ libc::kill\(-pid_i32, SIGKILL\) ?;? \}", t): return ["kill-group"]
         r = re.fullmatch(r"break(?: (\w+(?:::\w+)*))?", t)
         if r: return ["break" + (":" + r.group(1).split("::")[-1] if r.group(1) else "")]
         if re.fullmatch(r"let \w+ = \w+\.snapshot\(\)", t): return []
+        if re.fullmatch(r"HandleSignalResult::\w+", t): return []          # the arm's value: which kind of request it was
+        # a clock touched only in the state that needs it, inside an enclosing block
+        r = re.fullmatch(r"if (\w+)\.is_paused\(\) \{ ?(\w+)\.resume\(\) ?;? ?\}", t)
+        if r and r.group(1) == r.group(2): return [f"{r.group(1)}.resume_if_paused"]
+        r = re.fullmatch(r"if !(\w+)\.is_paused\(\) \{ ?(\w+)\.pause\(\) ?;? ?\}", t)
+        if r and r.group(1) == r.group(2): return [f"{r.group(1)}.pause_unless_paused"]
         if re.match(r"(?:let )?_ = (?:sender|tx)\.send\( ?\w+\.info_response\(", t): return ["info"]
         raise RuntimeError(f"{fn_name}: unrecognised statement `{t[:80]}`")
     def split_top(text):
@@ -301,11 +307,11 @@ def request_arms(src, fn_name, keys):
         rows = []
         for t in split_top(text):
             t = t.strip()
-            r = re.match(r"if (\w+)\.is_paused\(\) \{(.*)\}$", t, re.S)
+            r = re.match(r"if (!?)(\w+)\.is_paused\(\) \{(.*)\}$", t, re.S)
             if r:
                 acts = []
-                for u in split_top(r.group(2)): acts += stmt(u)
-                rows.append((r.group(1) + ".is_paused", acts)); continue
+                for u in split_top(r.group(3)): acts += stmt(u)
+                rows.append((r.group(2) + (".not_paused" if r.group(1) else ".is_paused"), acts)); continue
             a = stmt(t)
             if a: rows.append(("", a))
         return rows
@@ -327,7 +333,7 @@ def lean_arm(rows):
     return "[" + ", ".join('("' + g + '", [' + ", ".join(f'"{a}"' for a in acts) + "])" for g, acts in rows) + "]"
 
 
-GROUPS = ["cancel", "mismatch", "exit", "setdef", "escape", "signals", "sighandler", "termchild", "delayloop", "placeholders", "xml"]
+GROUPS = ["cancel", "mismatch", "exit", "setdef", "escape", "signals", "sighandler", "termchild", "delayloop", "drainloop", "mainloop", "placeholders", "xml"]
 
 
 def group_lines(g):
@@ -381,6 +387,17 @@ def group_lines(g):
                 f"def terminateChildStopArm : List (String × List String) := {lean_arm(arms['Stop'])}",
                 f"def terminateChildContinueArm : List (String × List String) := {lean_arm(arms['Continue'])}",
                 f"def terminateChildShutdownArm : List (String × List String) := {lean_arm(arms['Shutdown'])}"]
+    if g == "mainloop":
+        keys = {"Stop": r"SignalRequest::Stop\(\w+\)", "Continue": r"SignalRequest::Continue"}
+        arms = request_arms(strip_comments(read("nextest-runner/src/runner/executor.rs")), "handle_signal_request", keys)
+        return ["/-- executor.rs `handle_signal_request` (the main loop of an attempt), its job-control arms -/"] + [
+                f"def main{k}Arm : List (String × List String) := {lean_arm(arms[k])}" for k in ("Stop", "Continue")]
+    if g == "drainloop":
+        keys = {k: ARM_KEYS[k] for k in ("Stop", "Continue", "OtherCancel")}
+        keys["AnyOtherSignal"] = r"RunUnitRequest::Signal\(_\)"
+        arms = request_arms(strip_comments(read("nextest-runner/src/runner/executor.rs")), "detect_fd_leaks", keys)
+        return ["/-- executor.rs `detect_fd_leaks`, arms of its request loop -/"] + [
+                f"def drain{k}Arm : List (String × List String) := {lean_arm(arms[k])}" for k in ("Stop", "Continue", "OtherCancel", "AnyOtherSignal")]
     if g == "delayloop":
         arms = request_arms(strip_comments(read("nextest-runner/src/runner/executor.rs")), "handle_delay_between_attempts", ARM_KEYS)
         return ["/-- executor.rs `handle_delay_between_attempts`, arms of its request loop -/"] + [
